@@ -487,3 +487,91 @@ Proof.
   - exact C0.
   - change (j_tasks (mutate d j)) with (mutate_tasks 0 (j_tasks j)). rewrite N2. exact C.
 Qed.
+
+(* ---------- the range condition stated on the request (audit W1) ---------- *)
+Lemma In_le_sumZ l : (forall x, In x l -> 0 <= x) -> forall x, In x l -> x <= sumZ l.
+Proof.
+  induction l as [|a l IH]; simpl; intros H x Hx; [tauto|].
+  assert (0 <= a) by auto. assert (0 <= sumZ l) by (apply sumZ_nonneg; auto).
+  destruct Hx as [<-|Hx]; [lia|]. assert (x <= sumZ l) by (apply IH; auto). lia.
+Qed.
+
+Lemma replicas_mutate : forall ts i, map t_replicas (mutate_tasks i ts) = map t_replicas ts.
+Proof. induction ts as [|t r IH]; intros i; simpl; [reflexivity|]. now rewrite IH. Qed.
+
+Lemma In_mutate_tasks : forall ts i t', In t' (mutate_tasks i ts) -> exists k t, In t ts /\ t' = mutate_task k t.
+Proof.
+  induction ts as [|t r IH]; intros i t' H; simpl in H; [tauto|].
+  destruct H as [<-|H]; [exists i, t; simpl; auto|].
+  destruct (IH _ _ H) as (k & t0 & H1 & H2). exists k, t0. simpl. auto.
+Qed.
+
+Lemma prefill_minavail_facts (P : option Z -> Z -> Prop) : forall ts i,
+  (forall k t', nth_error (prefill_tasks i ts) k = Some t' -> P (t_minavail t') (t_replicas t')) ->
+  forall t, In t ts -> P (t_minavail t) (t_replicas t).
+Proof.
+  induction ts as [|t r IH]; intros i H x Hx; simpl in *; [tauto|].
+  destruct Hx as [<-|Hx].
+  - apply (H O _ eq_refl).
+  - apply (IH (S i)); auto. intros k t' Hk. apply (H (S k) t' Hk).
+Qed.
+
+Lemma mutate_task_in_range k t :
+  task_in_range t = true -> t_replicas t <= max32 ->
+  (forall m, t_minavail t = Some m -> m <= t_replicas t) ->
+  0 <= task_min (mutate_task k t) <= t_replicas (mutate_task k t).
+Proof.
+  unfold task_in_range, task_min, mutate_task. cbn [t_minavail t_replicas].
+  intros H Hmax Hle. apply andb_true_iff in H. destruct H as [H0 H1]. apply Z.leb_le in H0.
+  destruct (t_minavail t) as [m|].
+  - apply Z.leb_le in H1. specialize (Hle m eq_refl). lia.
+  - destruct (t_part t) as [p|]; [|lia].
+    destruct (0 <? pp_min p); [|lia].
+    apply andb_true_iff in H1. destruct H1 as [A B]. apply Z.leb_le in A. apply Z.leb_le in B.
+    rewrite wrap32_id by (unfold min32, max32 in *; lia). lia.
+Qed.
+
+Lemma request_range_defaults O qs d j :
+  validate_create O qs (prefill j) = true -> request_in_range j = true ->
+  defaults_in_range (mutate d j) = true.
+Proof.
+  intros V R. unfold request_in_range in R. apply andb_true_iff in R. destruct R as [R1 R2].
+  rewrite forallb_forall in R1. apply Z.leb_le in R2.
+  unfold defaults_in_range. change (j_tasks (mutate d j)) with (mutate_tasks 0 (j_tasks j)).
+  rewrite replicas_mutate. apply andb_true_iff. split; [|now apply Z.leb_le].
+  assert (NN : forall x, In x (map t_replicas (j_tasks j)) -> 0 <= x).
+  { intros x Hx. apply in_map_iff in Hx. destruct Hx as (t & <- & Ht). apply R1 in Ht.
+    unfold task_in_range in Ht. apply andb_true_iff in Ht. destruct Ht as [A _]. now apply Z.leb_le. }
+  assert (LE : forall t, In t (j_tasks j) -> forall m, t_minavail t = Some m -> m <= t_replicas t).
+  { apply admit_create_sound in V. destruct V.
+    apply (prefill_minavail_facts (fun o r => forall m, o = Some m -> m <= r) (j_tasks j) 0).
+    intros k t' Hk. change (j_tasks (prefill j)) with (prefill_tasks 0 (j_tasks j)) in cs_task.
+    destruct (cs_task _ _ Hk). auto. }
+  apply forallb_forall. intros t' Ht'. apply In_mutate_tasks in Ht'. destruct Ht' as (k & t & Ht & ->).
+  assert (t_replicas t <= max32).
+  { eapply Z.le_trans; [|exact R2]. apply In_le_sumZ; auto. apply in_map. auto. }
+  destruct (mutate_task_in_range k t (R1 _ Ht) H (LE _ Ht)) as [A B].
+  apply andb_true_iff. split; now apply Z.leb_le.
+Qed.
+
+(* Defaulting produces an object that passes validation whenever the request is
+   valid modulo defaults and its OWN numbers are in range.  No hypothesis mentions
+   the defaulted object. *)
+Theorem default_preserves_validity_input : forall O qs d j,
+  validate_create O qs (prefill j) = true -> request_in_range j = true ->
+  validate_create O qs (mutate d j) = true.
+Proof.
+  intros O qs d j V R. apply default_preserves_validity; auto. eapply request_range_defaults; eauto.
+Qed.
+
+(* a three-step history with a refused update in the middle (audit W5) *)
+Example history_with_refusal :
+  let t r m := mkTask 4 r (Some m) (mkTmpl 1 false 0) [] 3 None None in
+  let jb r m ma pr q := mkJob 7 [t r m] ma [] [] None q 1 3 pr 0 0 in
+  let j0 := jb 2 1 1 0 2 in
+  let us := [jb 5 3 4 1 2; jb 5 3 4 1 5; jb 3 3 3 2 2] in
+  validate_create tq_oracles [mkQueue 1 1 0 false; mkQueue 2 1 1 false] j0 = true /\
+  update_verdicts j0 us = [true; false; true] /\
+  apply_updates j0 us = jb 3 3 3 2 2 /\
+  Forall (fun u => j_name u = j_name j0) us.
+Proof. vm_compute. repeat split; try reflexivity. repeat constructor. Qed.
